@@ -1,0 +1,15 @@
+//go:build verif
+
+package config
+
+// VerifC27HoldConfigReadLock takes the read lock guarding the running configuration of a
+// file-based Config and returns the function that releases it. While it is held, a Reload that
+// has decided to store a new configuration waits at the store.
+func VerifC27HoldConfigReadLock(c Config) (release func(), ok bool) {
+	f, ok := c.(*fileConfig)
+	if !ok {
+		return func() {}, false
+	}
+	f.mux.RLock()
+	return f.mux.RUnlock, true
+}
